@@ -73,7 +73,20 @@ fn replay(case: &Value) -> Vec<Violation> {
         let (rx, ry) = (dec(&bd(&x).exp()), dec(&bd(&y).exp()));
         return mono(&x, &y, &rx, &ry).into_iter().collect();
     }
-    check(&jd(&case["x"])).1.into_iter().collect()
+    if let Some(a) = case.get("after") {
+        // a recorded history: the earlier call first
+        let _ = guard(|| bd(&jd(a)).exp());
+    }
+    check(&jd(&case["x"]))
+        .1
+        .map(|mut v| {
+            if let (Some(a), Some(o)) = (case.get("after"), v.case.as_object_mut()) {
+                o.insert("after".into(), a.clone());
+            }
+            v
+        })
+        .into_iter()
+        .collect()
 }
 
 fn mono(x: &Dec, y: &Dec, rx: &Dec, ry: &Dec) -> Option<Violation> {
@@ -213,6 +226,28 @@ fn main() {
         }
         if i % 400 == 7 {
             run.sample(|| json!({"x": args[i].show()}));
+        }
+        t
+    });
+    // call histories of length two: exp(y) straight after exp(x) on the same thread, every ordered pair of a small
+    // argument set (including value-equal spellings and sign pairs); exp is pure, so the second result is judged
+    // by the model whatever came first
+    let hargs: Vec<Dec> = vec![Dec::new(1, 0), Dec::new(10, 1), Dec::new(-1, 0), Dec::new(2, 0), Dec::new(5, 1), Dec::new(-5, 1), Dec::new(30, 0), Dec::new(-30, 0), Dec { n: BigInt::from(-30) * pow10(17), s: 17 }, Dec::new(1, 20), Dec::new(230258509299i64, 11), Dec::new(7, -1)];
+    run.bound("history_arguments", hargs.len());
+    run.par("call histories of length two", hargs.len(), |i| {
+        let mut t = Tally::default();
+        let first = bd(&hargs[i]);
+        for y in hargs.iter() {
+            t.states += 1;
+            t.transitions += 2;
+            t.nontrivial += 1;
+            let _ = guard(|| first.exp());
+            if let (_, Some(mut v)) = check(y) {
+                if let Some(o) = v.case.as_object_mut() {
+                    o.insert("after".into(), json!(hargs[i].show()));
+                }
+                run.report(v.attr("history", true));
+            }
         }
         t
     });
